@@ -98,6 +98,72 @@ def class_for_hint(acc, hint):
     return c
 
 
+_POD_KINDS = ("StringPOD", "HTMLStringPOD", "BoolPOD", "IntPOD", "EnumPOD", "FloatPOD", "DatetimePOD")
+
+
+def _qual(c) -> str:
+    return f"{c.__module__}.{c.__qualname__}"
+
+
+def _stringy(enumcls) -> bool:
+    """behavioural test of `_StringyEnumMixin.__eq__` (as gen_pods.is_stringy): every member equals its own name only"""
+    names = list(enumcls.__members__)
+    for n, mem in enumcls.__members__.items():
+        if not (mem == n and n == mem and not (mem != n) and not (n != mem)):
+            return False
+        if any(o != n and (mem == o or not (mem != o)) for o in names):
+            return False
+    return True
+
+
+def pod_json(d) -> dict | None:
+    """reflection of a POD descriptor for the accessor model (`Capella.Pods.Desc`); None = not a POD class of `_pods.py` itself"""
+    from capellambse.model import _pods as P
+
+    kind = type(d).__name__
+    if kind not in _POD_KINDS or type(d) is not getattr(P, kind, None):
+        return None
+    out = {"kind": kind, "attr": d.attribute, "w": bool(d.writable)}
+    if kind == "EnumPOD":
+        ec = d.enumcls
+        members = []
+        for n, mem in ec.__members__.items():
+            if mem.name != n or not isinstance(mem.value, str):
+                return None   # alias or non-string value: not representable
+            members.append([n, mem.value])
+        out["enum"] = {"name": _qual(ec), "stringy": _stringy(ec), "members": members, "default": d.default.name}
+    return out
+
+
+def lit_json(v) -> dict:
+    """a value assigned to a POD attribute (`Capella.Accessor.PodLit`)"""
+    import enum
+
+    if v is None:
+        return {"n": True}
+    if isinstance(v, bool):
+        return {"b": v}
+    if isinstance(v, int) and abs(v) < 2**62:
+        return {"i": v}
+    if isinstance(v, enum.Enum) and isinstance(v.value, str):
+        return {"m": [_qual(type(v)), v.name, v.value]}
+    if isinstance(v, str):
+        return {"s": str(v)}
+    return {"o": True}
+
+
+def repairs(d, v) -> list:
+    """`helpers.repair_html` (libxml2) is a parameter of the model: what it makes of the assigned value is an INPUT"""
+    if type(d).__name__ != "HTMLStringPOD" or not isinstance(v, str):
+        return []
+    from capellambse import helpers
+
+    try:
+        return [[str(v), str(helpers.repair_html(v))]]
+    except Exception:  # noqa: BLE001
+        return [[str(v), None]]
+
+
 def kw_items(cls, kw: dict) -> list[dict]:
     from capellambse.model import NewObject
     from capellambse.model import _descriptors as D
@@ -122,6 +188,8 @@ def kw_items(cls, kw: dict) -> list[dict]:
                     rk = f"{b.__module__}.{b.__qualname__}"
             inner = class_for_hint(d, v._type_hint)
             out.append({"k": k, "slot": "role", "cls": rk, "attr": k, "new": {"hint": v._type_hint, "kw": kw_items(inner, dict(v._kw))}})
+        elif isinstance(d, P.BasePOD) and pod_json(d) is not None:
+            out.append({"k": k, "slot": "podk", "d": pod_json(d), "rep": repairs(d, v), "v": lit_json(v)})
         elif isinstance(d, (D.Accessor, P.BasePOD)):
             out.append({"k": k, "slot": "other"})
         else:
@@ -236,14 +304,16 @@ class AccessorTie:
             return None
         if op == "setattr":
             o, attr, v = L["o"], L["attr"], L["v"]
-            if attr != "name":
-                return {"_decline": "html-pod"}
             from capellambse.model import _pods as P
 
             d = getattr(type(o), attr, None)
-            if type(d) is not P.StringPOD:
+            if type(d) is P.StringPOD and isinstance(v, str):
+                return {"m": "podset", "owner": id(o._element), "xml": d.attribute, "w": bool(d.writable), "v": v}
+            pj = pod_json(d) if isinstance(d, P.BasePOD) else None
+            if pj is None:
                 return {"_decline": "pod-kind"}
-            return {"m": "podset", "owner": id(o._element), "xml": d.attribute, "w": bool(d.writable), "v": v}
+            # every POD kind of `_pods.py`: the decisions of `BasePOD.__set__` are the model's (Capella.Pods, as in C07)
+            return {"m": "podsetk", "owner": id(o._element), "d": pj, "rep": repairs(d, v), "v": lit_json(v)}
         if op == "role_set":
             o, attr, hint = L["o"], L["attr"], L["hint"]
             rk = row_key(o, attr)
@@ -341,6 +411,9 @@ class AccessorTie:
             self.out.hit(f"acc.{h}")
         if a["err"] in ("!unmodelled",):
             self.decline(f"model:{a['why']}")
+            kind = type(rec.step.rel.acc).__name__ if rec.step.rel is not None else "-"
+            dk = self.stats.setdefault("declined_kinds", {})
+            dk[f"{a['why'][:60]}|{kind}"] = dk.get(f"{a['why'][:60]}|{kind}", 0) + 1
             self.resync(model)
             return
         if self.drv is None:
